@@ -35,6 +35,11 @@ import (
 //	ingress <key> <w>                                  the INGRESS side: a second, real agent (agent.New, not started) with a learned route
 //	                                                   for <key> runs Agent.DialForward(key); the STREAM_OPEN it sends is captured and handed,
 //	                                                   byte for byte, to the exit agent's handleStreamOpen -> noroute | undecodable | as agent
+//	reopen <i> <key>                                   HandleStreamOpen for <key> RE-USING the stream id of the i-th dialled stream (live or
+//	                                                   closed) with a fresh request id -> as open   (i out of range: same as open)
+//	data <i>                                           a unique token, encrypted under the session of the LAST ACKed open of that stream id, is
+//	                                                   passed to HandleStreamData; which listener reads it? -> data <target> | data none | data skipped
+//	                                                   (skipped: the stream was opened by the ingress agent, its session key is not ours)
 //	close <i>                                          HandleStreamClose of the i-th dialled stream -> ok
 //
 // Every answer gets " stray=<target>" appended for each connection a listener accepted that does
@@ -55,6 +60,19 @@ type c20Event struct {
 	peer      identity.AgentID
 	code      uint16
 	port      uint16
+	eph       [crypto.KeySize]byte
+}
+
+// c20Data: bytes a target listener read from an accepted connection.
+type c20Data struct {
+	idx  int
+	data string
+}
+
+// c20Kx: our side of the key exchange of one open request.
+type c20Kx struct {
+	rid       uint64
+	priv, pub [crypto.KeySize]byte
 }
 
 type c20Writer struct{ ev chan c20Event }
@@ -63,11 +81,11 @@ func (w *c20Writer) WriteStreamData(peerID identity.AgentID, streamID uint64, da
 	return nil
 }
 func (w *c20Writer) WriteStreamOpenAck(peerID identity.AgentID, streamID uint64, requestID uint64, boundIP net.IP, boundPort uint16, eph [crypto.KeySize]byte) error {
-	w.ev <- c20Event{"ack", streamID, requestID, peerID, 0, boundPort}
+	w.ev <- c20Event{"ack", streamID, requestID, peerID, 0, boundPort, eph}
 	return nil
 }
 func (w *c20Writer) WriteStreamOpenErr(peerID identity.AgentID, streamID uint64, requestID uint64, errorCode uint16, message string) error {
-	w.ev <- c20Event{"err", streamID, requestID, peerID, errorCode, 0}
+	w.ev <- c20Event{"err", streamID, requestID, peerID, errorCode, 0, [crypto.KeySize]byte{}}
 	return nil
 }
 func (w *c20Writer) WriteStreamClose(peerID identity.AgentID, streamID uint64) error { return nil }
@@ -82,7 +100,13 @@ type c20State struct {
 	ag      *agent.Agent
 	w       *c20Writer
 	nextSID uint64
+	nextRID uint64
 	maxConn int
+	dataCh  chan c20Data
+	sidConn map[uint64][2]int              // live stream id -> (source port, listener) of its current connection
+	keys    map[uint64]c20Kx             // stream id -> keys of the request in flight
+	sess    map[uint64]*crypto.SessionKey  // stream id -> session of its last ACKed open
+	tokenN  int
 	ing      *agent.Agent // ingress agent (lazily created, lives for the whole run)
 	ingBuf   *c20Buf
 	ingID    identity.AgentID
@@ -99,6 +123,7 @@ type c20State struct {
 func (s *c20State) init() {
 	s.once.Do(func() {
 		s.acc = make(chan c20Accept, 1024)
+		s.dataCh = make(chan c20Data, 4096)
 		for i := 0; i < c20Live+2; i++ {
 			if i >= c20Live {
 				// dead target: a socket that is bound (so no other process can take the port) but never
@@ -122,6 +147,7 @@ func (s *c20State) init() {
 						return
 					}
 					s.acc <- c20Accept{i, c.RemoteAddr().(*net.TCPAddr).Port, c}
+					go s.readTarget(i, c)
 				}
 			}()
 		}
@@ -148,6 +174,8 @@ func (s *c20State) init() {
 									return
 								}
 								s.acc <- c20Accept{i, c.RemoteAddr().(*net.TCPAddr).Port, c}
+								go s.readTarget(i, c)
+					go s.readTarget(i, c)
 							}
 						}()
 					}
@@ -243,6 +271,30 @@ func (s *c20State) ingressOpen(key string) ([]byte, string) {
 	return fr.Payload, ""
 }
 
+// readTarget: what the target side of a forwarded connection receives.
+func (s *c20State) readTarget(idx int, c net.Conn) {
+	buf := make([]byte, 4096)
+	for {
+		n, err := c.Read(buf)
+		if n > 0 {
+			s.dataCh <- c20Data{idx, string(buf[:n])}
+		}
+		if err != nil {
+			return
+		}
+	}
+}
+
+// newKeys prepares our half of the key exchange for a request on stream sid.
+func (s *c20State) newKeys(sid uint64) (uint64, [crypto.KeySize]byte) {
+	s.nextRID++
+	rid := s.nextRID*7 + 1
+	priv, pub, err := crypto.GenerateEphemeralKeypair()
+	must(err)
+	s.keys[sid] = c20Kx{rid, priv, pub}
+	return rid, pub
+}
+
 func (s *c20State) drain(wait time.Duration) {
 	deadline := time.After(wait)
 	for {
@@ -257,11 +309,17 @@ func (s *c20State) drain(wait time.Duration) {
 }
 
 // attribute finds (waiting if needed) the accepted connection whose remote port is `port`.
-func (s *c20State) attribute(port int) int {
+func (s *c20State) attribute(sid uint64, port int) int {
+	// an ACK that re-uses the connection this stream id already has (same source port while the
+	// stream is live) is not a new dial: it still talks to the same listener
+	if cur, ok := s.sidConn[sid]; ok && cur[0] == port {
+		return cur[1]
+	}
 	for tries := 0; tries < 2000; tries++ {
 		for i, a := range s.pending {
 			if a.port == port {
 				s.pending = append(s.pending[:i], s.pending[i+1:]...)
+				s.sidConn[sid] = [2]int{port, a.idx}
 				return a.idx
 			}
 		}
@@ -289,6 +347,10 @@ func (s *c20State) teardown() {
 		c.Close()
 	}
 	s.conns, s.pending, s.dialled = nil, nil, nil
+	s.sidConn, s.keys, s.sess = map[uint64][2]int{}, map[uint64]c20Kx{}, map[uint64]*crypto.SessionKey{}
+	for len(s.dataCh) > 0 {
+		<-s.dataCh
+	}
 }
 
 // outcome collects the reply to stream sid: it waits for it when waitAsync (the call under test
@@ -325,8 +387,21 @@ func (s *c20State) outcome(sid, rid uint64, waitAsync bool, errTag string) strin
 		s.drain(2 * time.Millisecond)
 		return fmt.Sprintf("%s %d", errTag, ev.code) + s.strays()
 	}
-	idx := s.attribute(int(ev.port))
-	s.dialled = append(s.dialled, sid)
+	idx := s.attribute(sid, int(ev.port))
+	if k, ok := s.keys[sid]; ok && k.rid == rid {
+		if shared, err := crypto.ComputeECDH(k.priv, ev.eph); err == nil {
+			s.sess[sid] = crypto.DeriveSessionKey(shared, rid, k.pub, ev.eph, true)
+		}
+	} else {
+		delete(s.sess, sid) // opened with somebody else's keys (ingress agent)
+	}
+	known := false
+	for _, d := range s.dialled {
+		known = known || d == sid
+	}
+	if !known {
+		s.dialled = append(s.dialled, sid)
+	}
 	s.drain(time.Millisecond)
 	return fmt.Sprintf("dial %d", idx) + s.strays()
 }
@@ -375,10 +450,18 @@ func init() {
 			case "start":
 				s.h.Start()
 				return "ok"
-			case "open":
+			case "open", "reopen":
 				s.nextSID += 2
-				sid, rid := s.nextSID, s.nextSID*7+1
-				err := s.h.HandleStreamOpen(context.Background(), sid, rid, s.remote, string(unhexTok(f[1])), s.ephPub)
+				sid := s.nextSID
+				keyArg := f[1]
+				if f[0] == "reopen" {
+					keyArg = f[2]
+					if i, err := strconv.Atoi(f[1]); err == nil && i < len(s.dialled) {
+						sid = s.dialled[i]
+					}
+				}
+				rid, pub := s.newKeys(sid)
+				err := s.h.HandleStreamOpen(context.Background(), sid, rid, s.remote, string(unhexTok(keyArg)), pub)
 				if err != nil {
 					out := s.outcome(sid, rid, false, "err")
 					if strings.HasPrefix(out, "none") {
@@ -405,8 +488,9 @@ func init() {
 					path = []identity.AgentID{s.other, s.self}
 				}
 				s.nextSID += 2
-				sid, rid := s.nextSID, s.nextSID*7+1
-				open := &protocol.StreamOpen{RequestID: rid, AddressType: uint8(at), Address: unhexTok(f[2]), Port: 80, TTL: 8, RemainingPath: path, EphemeralPubKey: s.ephPub}
+				sid := s.nextSID
+				rid, pub := s.newKeys(sid)
+				open := &protocol.StreamOpen{RequestID: rid, AddressType: uint8(at), Address: unhexTok(f[2]), Port: 80, TTL: 8, RemainingPath: path, EphemeralPubKey: pub}
 				s.ag.C20HandleStreamOpen(s.remote, &protocol.Frame{Type: protocol.FrameStreamOpen, StreamID: sid, Payload: open.Encode()})
 				// wait for an asynchronous answer only when the generator expects a dial AND the handler is
 				// in a state to accept (public accessors; a synchronous refusal is picked up either way)
@@ -426,10 +510,41 @@ func init() {
 				s.ag.C20HandleStreamOpen(s.remote, &protocol.Frame{Type: protocol.FrameStreamOpen, StreamID: sid, Payload: payload})
 				wait := f[2] == "1" && s.h.IsRunning() && (s.maxConn <= 0 || s.h.ConnectionCount() < int64(s.maxConn))
 				return s.outcome(sid, open.RequestID, wait, "err")
+			case "data":
+				i, err := strconv.Atoi(f[1])
+				must(err)
+				if i >= len(s.dialled) {
+					return "data none"
+				}
+				sid := s.dialled[i]
+				sk := s.sess[sid]
+				if sk == nil {
+					return "data skipped"
+				}
+				s.tokenN++
+				token := fmt.Sprintf("<tok-%d-%d>", sid, s.tokenN)
+				ct, err := sk.Encrypt([]byte(token))
+				must(err)
+				if err := s.h.HandleStreamData(s.remote, sid, ct, 0); err != nil {
+					return "data none"
+				}
+				// the handler wrote the plaintext to a TCP connection: some listener will read it
+				deadline := time.After(20 * time.Second)
+				for {
+					select {
+					case d := <-s.dataCh:
+						if strings.Contains(d.data, token) {
+							return fmt.Sprintf("data %d", d.idx)
+						}
+					case <-deadline:
+						return "data lost"
+					}
+				}
 			case "close":
 				i, err := strconv.Atoi(f[1])
 				must(err)
 				if i < len(s.dialled) {
+					delete(s.sidConn, s.dialled[i])
 					s.h.HandleStreamClose(s.remote, s.dialled[i])
 				}
 				return "ok"
@@ -438,7 +553,7 @@ func init() {
 		},
 		Gen: func(w *bufio.Writer, seed int64, tier string) {
 			r := newRngMixed(seed)
-			cases := 80
+			cases := 60
 			if tier == "thorough" {
 				cases = 1000
 			}
@@ -573,6 +688,18 @@ func c20GenCase(w *bufio.Writer, r *rng) {
 			return string(r.bytes(r.intn(5)))
 		}
 	}
+	if len(keys) > 0 && r.chance(50) {
+		// re-use of a LIVE stream id: open one key, then send STREAM_OPEN again on the same stream id for the
+		// same key / another configured key / an unknown key / near-misses, and after each see where data goes
+		k0 := keys[r.intn(len(keys))]
+		fmt.Fprintf(w, "open %s\ndata 0\n", hexTok([]byte(k0)))
+		for _, k := range []string{k0, keys[r.intn(len(keys))], "no-such-key", c20Mutate(r, k0), k0 + ".", keys[r.intn(len(keys))]} {
+			fmt.Fprintf(w, "reopen 0 %s\ndata 0\n", hexTok([]byte(k)))
+		}
+		if r.chance(50) {
+			fmt.Fprintf(w, "close 0\ndata 0\nreopen 0 %s\ndata 0\n", hexTok([]byte(keys[r.intn(len(keys))])))
+		}
+	}
 	if len(keys) > 0 && r.chance(35) {
 		// every configured key in order, in reverse order, and again (state kept by the handler between
 		// opens — e.g. anything cached per host — must not redirect a later open)
@@ -606,11 +733,15 @@ func c20GenCase(w *bufio.Writer, r *rng) {
 	dials := 0
 	for i := 0; i < nOps; i++ {
 		switch x := r.intn(100); {
-		case x < 50:
+		case x < 46:
 			k := pickKey()
 			fmt.Fprintf(w, "open %s\n", hexTok([]byte(k)))
 			dials++
+		case x < 54:
+			fmt.Fprintf(w, "reopen %d %s\n", r.intn(dials+1), hexTok([]byte(pickKey())))
 		case x < 58:
+			fmt.Fprintf(w, "data %d\n", r.intn(dials+1))
+		case x >= 58 && x < 61 && r.chance(60):
 			fmt.Fprintf(w, "close %d\n", r.intn(dials+1))
 		case x >= 61 && x < 71:
 			k := pickKey()
